@@ -155,8 +155,12 @@ def rewrite_files(
     fobj: typ.IO[str]
 
     # NOTE: all files are read and validated before the first one is written,
-    #   so that a missing file or pattern leaves the project untouched.
-    for file_data in list(iter_rewritten(file_patterns, new_vinfo)):
+    #   so that a missing file or pattern leaves the project untouched. Each file
+    #   is read again when it is written, as it may be configured under two paths.
+    for _ in iter_rewritten(file_patterns, new_vinfo):
+        pass
+
+    for file_data in iter_rewritten(file_patterns, new_vinfo):
         new_content = file_data.line_sep.join(file_data.new_lines)
         with io.open(file_data.path, mode="wt", newline='', encoding="utf-8") as fobj:
             fobj.write(new_content)
